@@ -174,9 +174,18 @@ class Models:
                 it = IterV(("custom", it))
             else:
                 return None
-        if kind in ("map", "map_while"):
+        # the adaptor sits on top of an iterator that may already be positioned past some elements (skip(..)): keep the position
+        if kind == "map":
+            return [(st, "val", IterV((kind, it.seq, a[1]), it.pos))]
+        if kind == "map_while":
+            if not (it.pos.is_const() and it.pos.c == 0):
+                return None
             return [(st, "val", IterV((kind, it.seq, a[1])))]
-        return [(st, "val", IterV((kind, it.seq)))]
+        if kind == "enumerate":
+            if not (it.pos.is_const() and it.pos.c == 0):
+                return None      # indices would have to be rebased
+            return [(st, "val", IterV((kind, it.seq)))]
+        return [(st, "val", IterV((kind, it.seq), it.pos))]
 
     def m_last(self, e, st, a):
         v = a[0]
